@@ -12,13 +12,13 @@ def classify(e, mon):
 
 
 def run(ctx):
-    ctx.build("h-model")
+    ctx.build("h-model", "c01")
     # 1. the specification itself means "mathematically rounded": exhaustive laws on the small world
     ctx.model_check("MC_Num", workers=8)
     # 2. every small tuple through the real u64 and u128 code, judged by TLC against the same operators
     rng, rng4 = (12, 6) if ctx.quick else (24, 10)
     tr = ctx.path("small.ndjson")
-    ctx.run_bin("h-model", ["c01", "small", "--range", rng, "--range4", rng4, "--out", tr])
+    ctx.run_bin("c01", ["small", "--range", rng, "--range4", rng4, "--out", tr])
     fails, drifts, _ = ctx.validate_trace("Trace_Num", tr)
     ev = vlib.read_ndjson(tr)
     ctx.distinct += len({(e["op"], e["a"], e["b"], e["c"], e["d"]) for e in ev})
@@ -31,7 +31,7 @@ def run(ctx):
     wide_total = 0
     for bits, cinit in ((64, "CInit64"), (128, "CInit128")):
         wp = ctx.path("wide%d.ndjson" % bits)
-        ctx.run_bin("h-model", ["c01", "wide", "--bits", bits, "--n", n, "--seed", ctx.seed, "--out", wp])
+        ctx.run_bin("c01", ["wide", "--bits", bits, "--n", n, "--seed", ctx.seed, "--out", wp])
         wev = vlib.read_ndjson(wp)
         res = vlib.apalache_events(ctx, "Wide_Num", ["Num", "NumProps"], wev, SCHEMA, cinit,
                                    {"exact": ["MonNoPanic", "MonExact"], "conf": ["Conforms"]})
